@@ -1,1 +1,3 @@
 import DurableModel.Ident
+import DurableModel.Lock
+import DurableModel.Batcher
